@@ -107,6 +107,13 @@ CHECKS.update({
    SVM + " rust-sdk/core is built against a U256 shim (ethnum is not available offline) that is itself checked exhaustively against num-bigint on a value alphabet before use. TypeScript/WASM target not run (same Rust source).", "DESIGN.md §3 C20"),
 })
 
+CHECKS.update({
+ "C02": (B, "exploration",
+   "bounded-exhaustive enumeration: full cross product of boundary alphabets (prices x liquidity x instance-derived amounts x fee rates x modes), complete small boxes (tick box and three one-unit-per-price-unit boxes), U256Muldiv over all operand pairs of a word alphabet; exact rational oracle (num-bigint)",
+   "On every successful step of the enumerated sets: price moves toward and not past the target; input = exact amount rounded up, output = exact amount rounded down (or the smaller request); the step is tight to within one price unit and consumes the whole budget / delivers the whole request when it stops short; U256 division q*d+r==n for every non-zero divisor (a panic there is a violation).",
+   "Finite alphabets and boxes, not all of u64 x u128 x price^2 (exhaustive=false); compute_swap and the token-math functions are called directly.", "DESIGN.md §3 C02"),
+})
+
 NOT_APPLICABLE = {
 }
 PENDING_REASON = "check not built yet (build in progress; see DESIGN.md §8)"
